@@ -147,13 +147,13 @@ def finishObject (v : Variant) (m : Members) (anon : Nat) : Option (Term BNode Ã
     else if ty = vBnode then
       match bnPrefix? value with
       | none => none
-      | some l => let (b, n) := mkBNode l anon; some (.bnode b, n)
+      | some l => let r := mkBNode l anon; some (.bnode r.1, r.2)
     else none
 
 /-- Subject key: `_:label` is a blank node, anything else an IRI. -/
 def subjectOf (key : List Nat) (anon : Nat) : Term BNode Ã— Nat :=
   match bnPrefix? key with
-  | some l => let (b, n) := mkBNode l anon; (.bnode b, n)
+  | some l => let r := mkBNode l anon; (.bnode r.1, r.2)
   | none => (.iri key, anon)
 
 /-- One state per `t.Next()` call site of `parseRoot`. -/
@@ -202,7 +202,7 @@ def parse (v : Variant) (e : TEnd) : PState â†’ List Tok â†’ Acc â†’ Result
     match t with
     | .endObject => parse v e .trailing rest acc
     | .valueSep => parse v e .subjects rest acc
-    | .str key => let (s, n) := subjectOf key acc.anon; parse v e (.subjColon s) rest { acc with anon := n }
+    | .str key => let r := subjectOf key acc.anon; parse v e (.subjColon r.1) rest { acc with anon := r.2 }
     | _ => acc.fail .syntax
   | .subjColon s, t :: rest, acc =>
     match t with
@@ -479,10 +479,16 @@ def predTokens (e : List Nat Ã— List ObjRec) : List Tok :=
   Tok.str e.1 :: Tok.nameSep :: Tok.beginArray :: (joinSep (e.2.map recTokens) ++ [Tok.endArray])
 
 def subjTokens (e : List Nat Ã— PMap) : List Tok :=
-  Tok.str e.1 :: Tok.nameSep :: Tok.beginObject :: (joinSep ((sortKeys e.2).map predTokens) ++ [Tok.endObject])
+  Tok.str e.1 :: Tok.nameSep :: Tok.beginObject :: (joinSep (e.2.map predTokens) ++ [Tok.endObject])
+
+/-- The token stream of a buffer whose keys are written in the order given. -/
+def rawTokens (st : State) : List Tok :=
+  Tok.beginObject :: (joinSep (st.map subjTokens) ++ [Tok.endObject])
+
+/-- The order in which `encoding/json` writes the buffer: every map with its keys sorted. -/
+def sortState (st : State) : State := sortKeys (st.map (fun e => (e.1, sortKeys e.2)))
 
 /-- The token stream of the JSON text written by `Close` (under the recorded assumption). -/
-def encodeTokens (st : State) : List Tok :=
-  Tok.beginObject :: (joinSep ((sortKeys st).map subjTokens) ++ [Tok.endObject])
+def encodeTokens (st : State) : List Tok := rawTokens (sortState st)
 
 end RdfModel.RJ
